@@ -74,7 +74,7 @@ func checkGrouping(in HistInput) (string, int, int) {
 	if stop != nil {
 		return "generator error: history contains an unsupported event: " + stop.Why, 0, 0
 	}
-	out := Run(h, Opts{Start: start, ServerID: 77, LockStep: in.LockStep})
+	out := Run(h, Opts{Start: start, ServerID: 77, LockStep: in.LockStep, KeepTx: true})
 	if out.Hung {
 		return "HUNG", len(served), len(exp)
 	}
@@ -89,6 +89,13 @@ func checkGrouping(in HistInput) (string, int, int) {
 	}
 	if d := hx.CompareAll(exp, out.Snaps()); d != "" {
 		return d, len(served), len(exp)
+	}
+	// what was delivered must stay what it was: re-read every transaction
+	// after the stream has ended (a buffer reused by the parser would show here)
+	for i, d := range out.Deliveries {
+		if diff := d.Snap.Diff(hx.Snapshot(d.Tx)); diff != "" {
+			return fmt.Sprintf("delivery %d changed after it was delivered (re-read after the stream ended): %s", i, diff), len(served), len(exp)
+		}
 	}
 	if in.LockStep {
 		for i, d := range out.Deliveries {
@@ -133,6 +140,8 @@ func classify(why string) string {
 	switch {
 	case strings.HasPrefix(why, "panic"):
 		return "panic"
+	case strings.Contains(why, "changed after it was delivered"):
+		return "changed-after-delivery"
 	case strings.Contains(why, "deliveries, expected"):
 		return "delivery-count"
 	case strings.Contains(why, "NowPosition"):
